@@ -918,7 +918,17 @@ func (fr *Frame) unop(st *State, in *ssa.UnOp) *Term {
 	case token.NOT:
 		return Not(fr.val(in.X))
 	case token.ARROW:
-		panic(unsupported("channel receive"))
+		// channel receive: the value (and the comma-ok flag) come from another goroutine and are
+		// unconstrained; no modelled state changes
+		fr.fc.note("channel receive yields an unconstrained value" + fr.posOf(in))
+		elem := in.X.Type().Underlying().(*types.Chan).Elem()
+		v := fr.fc.fresh("recv", SortOf(elem))
+		fr.typeInv(st, v, elem)
+		if in.CommaOk {
+			fr.tuples[in] = []*Term{v, fr.fc.fresh("recv.ok", SBool)}
+			return v
+		}
+		return v
 	}
 	panic(unsupported("unop " + in.Op.String()))
 }
